@@ -2,6 +2,7 @@ import PandoraModel.Properties.C12
 import PandoraModel.Properties.C12Kernels
 import PandoraModel.Properties.C12KernelsBounds
 import PandoraModel.Properties.C12KernelsSampled
+import PandoraModel.Properties.C12KernelsRiskSampled
 import PandoraModel.Properties.C12Names
 import PandoraModel.Properties.C12KernelsRegul
 open Pandora.C12
@@ -91,3 +92,6 @@ open Pandora.C12
 #print axioms Pandora.C12KernelsRegul.closeRow_core
 #print axioms Pandora.C12KernelsRegul.createConnectedGraph_generated_eq
 #print axioms Pandora.C12KernelsRegul.intervalRegularization_over_generated
+-- compute_risk_and_sampled_risk regenerated = (pixelRisk, pixelSampledRisk) (Properties/C12KernelsRiskSampled.lean)
+#print axioms Pandora.C12Kernels.pixelRisk_eq_mean
+#print axioms Pandora.C12Kernels.computeRiskSampled_generated_eq
